@@ -288,12 +288,12 @@ def poisson_entropy(lambdas):
         Psum = Psum + prob
         P.append(np.matrix(prob))
         if i >= np.max(lambdas):
-            small = np.min(prob)
+            small = np.max(prob)
 
         i = i + 1
 
     P = np.array(P).squeeze()
-    est_a = P * np.log(P)
+    est_a = np.where(P > 0, P * np.log(P), 0.0)
     try:
         est = -np.sum(est_a, axis=0)
     except:
